@@ -607,7 +607,22 @@ func (e *MetaCDC) getRPCChannelName(channelInfo model.ChannelInfo) string {
 	return e.config.SourceConfig.ReplicateChan
 }
 
+// isValidTaskID reports whether a caller-supplied task id can be used as it is. The id becomes part of the metadata
+// keys and a metric label value, so only letters, digits, '-' and '_' are accepted.
+func isValidTaskID(taskID string) bool {
+	for i := 0; i < len(taskID); i++ {
+		c := taskID[i]
+		if !((c >= 'a' && c <= 'z') || (c >= 'A' && c <= 'Z') || (c >= '0' && c <= '9') || c == '-' || c == '_') {
+			return false
+		}
+	}
+	return true
+}
+
 func (e *MetaCDC) validCreateRequest(req *request.CreateRequest) error {
+	if !isValidTaskID(req.TaskID) {
+		return servererror.NewClientError("the task id is invalid, only letters, digits, '-' and '_' are allowed")
+	}
 	milvusConnectParam := req.MilvusConnectParam
 	kafkaConnectParam := req.KafkaConnectParam
 	isMilvusEmpty := milvusConnectParam.URI == "" && milvusConnectParam.Host == "" && milvusConnectParam.Port <= 0
